@@ -10,7 +10,7 @@ trap 'git -C /repo checkout -q -- .' EXIT
 for C in "$@"; do
   out=$(bin/check $C ${SEED_TIER:-quick} 2>&1); rc=$?
   if [ $rc -eq 1 ] && echo "$out" | grep -q "^VIOLATION property=$C"; then
-    echo "SEED $ID check $C: DETECTED ($(echo "$out" | grep -m1 'signature=' | sed 's/^ *//'))"
+    echo "SEED $ID check $C: DETECTED ($(echo "$out" | grep -A1 '^VIOLATION' | grep -m1 'signature=' | sed 's/^ *//'))"
   else
     echo "SEED $ID check $C: MISSED (exit $rc) $(echo "$out" | tail -1)"
   fi
